@@ -151,6 +151,12 @@ def class_order(ct: dict) -> List[str]:
                 out.append(t["n"])
             if t["k"] == "uni":
                 out += t["ns"]
+        for r in ct[n]["resolvers"]:     # return types are evaluated when the class body runs
+            t = r["ret"]
+            while t["k"] in ("list", "opt", "und"):
+                t = t["e"]
+            if t["k"] == "obj" and t["n"] not in GENERICS:
+                out.append(t["n"])
         return out
 
     def visit(n):
@@ -196,7 +202,7 @@ def module_source(model: dict) -> str:
                            for p in r["params"])
             src.append("    @resolver")
             src.append(f"    def {r['name']}(self, {ps}) -> {type_expr(r['ret'])}:")
-            src.append("        return ['hi'] * times")
+            src.append(f"        return {r['src']}")
         src.append("")
     return "\n".join(src)
 
@@ -265,6 +271,10 @@ class World:
                     break
         return sorted(out)
 
+    def all_resolvers(self, n: str) -> List[dict]:
+        c = self.ct[n]
+        return (self.all_resolvers(c["bases"][0]) if c["bases"] else []) + c["resolvers"]
+
     def fname(self, f: dict) -> str:
         return self.st.aliaser(f["alias"] or f["name"])
 
@@ -276,6 +286,9 @@ class World:
                 out += self.sel_fields(f["t"]["n"], skip)
             elif self.fname(f) not in skip:
                 out.append(self.fname(f) + self.sel(f["t"]))
+        for r in self.all_resolvers(n):      # resolvers are fields too (those selectable without argument)
+            if r["sel"] and self.st.aliaser(r["name"]) not in skip:
+                out.append(self.st.aliaser(r["name"]) + self.sel(r["ret"]))
         return out
 
     def sel(self, T: dict) -> str:
